@@ -7,19 +7,22 @@ import c01, c03
 
 PID = "C02"
 LEVEL = "proof"
-COQ_TARGETS = ["Props/C02.vo", "Props/C02_identities.vo", "Props/C02_fp.vo"]
-PROPS_FILES = ["C02", "C02_identities", "C02_fp"]
+COQ_TARGETS = ["Props/C02.vo", "Props/C02_identities.vo", "Props/C02_ratio.vo", "Props/C02_fp.vo"]
+PROPS_FILES = ["C02", "C02_identities", "C02_ratio", "C02_fp"]
 THEOREMS = ["C02_fingerprints", "C02_binv_recurrence", "C02_binv_sampler_event", "C02_binomial_flip", "C02_geometric_split", "C02_std_geometric_form",
             "C02_hyper_reflect_bijection", "C02_hyper_reflect_pmf", "C02_hin_recurrence", "C02_zeta_identity", "C02_zeta_accept_le_1",
-            "C02_zipf_accept_mass", "C02_knuth_form", "C02_fingerprints"]
+            "C02_zipf_accept_mass", "C02_knuth_form", "C02_fingerprints",
+            "C02_btpe_exact_ratio", "C02_btpe_accept_iff", "C02_btpe_f51_exact_ratio", "C02_h2pe_exact_ratio", "C02_h2pe_accept_iff",
+            "C02_h2pe_f41_exact_ratio"]
 TRUSTED_BASE = [
     "Coq 8.16.1 kernel, stdlib real axioms (+ Coquelicot for two Zipf integrals): Props/C02_identities.v proves for ALL parameters the identities "
     "that make the ideal algorithms correct: BINV recurrence = binomial pmf and its inversion event, the p>0.5 flip, the geometric block "
     "decomposition and leading-zero counts, both hypergeometric symmetries and the bijection of the affine reflection onto the support incl. the "
     "integer tie rule, HIN recurrence and start values, Zeta proposal mass x acceptance = C x^-s with acceptance <= 1, Zipf hat/inverse/acceptance "
-    "mass, Knuth's product form",
-    "NOT proved: that the BTPE / H2PE / PD hats dominate their targets and their Stirling squeezes (the papers' lemmas); these samplers are tied "
-    "to the code pathwise only",
+    "mass, Knuth's product form; BTPE step 5.1 and H2PE step 4.1 compute the exact pmf ratio pmf(y)/pmf(m) and their acceptance tests are "
+    "v*pmf(m) <= pmf(y) (Props/C02_ratio.v, both for the real-number loops and for the terms btpe_f51 / h2pe_f41 of the executable model)",
+    "NOT proved: that the BTPE / H2PE / PD hats dominate their targets and their Stirling squeezes (the papers' lemmas); for those parts the "
+    "samplers are tied to the code pathwise only",
     "hand models coq/Model/Discrete.v of all seven samplers incl. constructors (BINV, BTPE regions 1-4 and 5.0-5.3, Knuth, Ahrens-Dieter PD, "
     "geometric split, HIN, H2PE, Zipf, Zeta), tied to the code by pathwise correspondence: same integer and same number of words on identical "
     "parameters and RNG words, on exhaustive small parameter sets and grids on both sides of every method switch; regenerated fingerprints",
